@@ -186,7 +186,9 @@ def lean_files():
         for fn in fns:
             if fn.endswith(".lean"):
                 out.append(os.path.join(root, fn))
-    out.append(os.path.join(LEAN, "Main.lean"))
+    for fn in os.listdir(os.path.join(LEAN, "Drivers")):
+        if fn.endswith(".lean"):
+            out.append(os.path.join(LEAN, "Drivers", fn))
     return sorted(out)
 
 
@@ -234,17 +236,40 @@ def axiom_audit(module, theorems):
     return res, out
 
 
-DRIVER = os.path.join(LEAN, ".lake", "build", "bin", "driver")
+def gen_lake():
+    subprocess.run([sys.executable, os.path.join(VERIF, "tools", "gen_lake.py")], check=True)
 
 
-def driver(lines, timeout=1800):
-    """Feed request lines to the Lean model driver, return answer lines."""
-    if not os.path.exists(DRIVER):
-        ok, out = lake_build(["driver"])
+def gen_arith(pid):
+    """Run the arithmetic translator for translate/arith_<pid>.json (if any).
+    Returns (ok, message)."""
+    spec = os.path.join(VERIF, "translate", f"arith_{pid}.json")
+    if not os.path.exists(spec):
+        return True, ""
+    out = os.path.join(LEAN, "Pyunicorn", "Generated", f"Arith{pid}.lean")
+    env = dict(os.environ, VERIF_REPO=REPO)
+    rc, msg = _run([sys.executable, os.path.join(VERIF, "translate", "gen_arith.py"),
+                    spec, out], env=env)
+    return rc == 0, msg
+
+
+def driver_path(pid):
+    return os.path.join(LEAN, ".lake", "build", "bin", f"drv_{pid.lower()}")
+
+
+def driver(pid, lines, timeout=3600):
+    """Feed request lines to the Lean model driver of property `pid`, return
+    the answer lines."""
+    exe = driver_path(pid)
+    if not os.path.exists(exe):
+        gen_lake()
+        ok, out = lake_build([f"drv_{pid.lower()}"])
         if not ok:
             raise BuildError("driver build failed:\n" + out[-3000:])
+    if not lines:
+        return []
     data = "\n".join(lines) + "\n"
-    r = subprocess.run([DRIVER], input=data, stdout=subprocess.PIPE,
+    r = subprocess.run([exe], input=data, stdout=subprocess.PIPE,
                        stderr=subprocess.PIPE, text=True, timeout=timeout)
     if r.returncode != 0:
         raise BuildError(f"driver crashed rc={r.returncode}: {r.stderr[-2000:]}")
@@ -261,6 +286,10 @@ def driver(lines, timeout=1800):
 # ----------------------------------------------------------------------------
 
 def load_findings():
+    """known_findings.json (aggregated from findings/<id>.json by
+    tools/mk_manifest.py, committed, never written at run time):
+    {"findings": [{"id","property","signature","what"}],
+     "fixed": ["fixed: property=<id> <commit> <what failed>", ...]}"""
     p = os.path.join(VERIF, "known_findings.json")
     if not os.path.exists(p):
         return {"findings": [], "fixed": []}
@@ -318,16 +347,27 @@ class Ctx:
             self.broken.append({"name": name, "kind": kind, "detail": detail[:3000]})
 
     # -- proof layer ---------------------------------------------------------
-    def proofs(self, module, relpath=None, extra_theorems=()):
-        """Build `module`, audit every theorem of its property file."""
+    def proofs(self, module=None, relpath=None, extra_theorems=()):
+        """Regenerate translator output, build the property module and its
+        driver, audit every theorem of the property file."""
+        module = module or f"Pyunicorn.Properties.{self.pid}"
         relpath = relpath or (module.replace(".", "/") + ".lean")
+        gen_lake()
+        ok, msg = gen_arith(self.pid)
+        if os.path.exists(os.path.join(VERIF, "translate", f"arith_{self.pid}.json")):
+            self.obligation("translator gen_arith regenerates lean/Pyunicorn/Generated/"
+                            f"Arith{self.pid}.lean from /repo", "translator", ok, msg)
         hits = banned_tokens(lean_files())
         self.obligation("no sorry/axiom/native_decide in lean/", "grep",
                         not hits, "\n".join(hits))
-        ok, out = lake_build([module, "driver"])
-        self.checker_cmd = f"cd lean && lake build {module} driver && lake env lean <#print axioms of every theorem of {relpath}>"
+        drv = f"drv_{self.pid.lower()}"
+        self.checker_cmd = (f"cd lean && lake build {module} {drv} && lake env lean "
+                            f"<#print axioms of every theorem of {relpath}>")
+        okd, outd = lake_build([drv])
+        if not okd:
+            raise BuildError(f"driver {drv} does not build:\n" + outd[-3000:])
+        ok, out = lake_build([module])
         if not ok:
-            # name the failing declarations
             errs = [l for l in out.split("\n") if "error" in l.lower()][:20]
             self.obligation(f"lake build {module}", "lean-build", False,
                             "\n".join(errs) + "\n" + out[-1500:])
@@ -346,6 +386,18 @@ class Ctx:
         self.extra.setdefault("theorems", []).extend(
             {"name": t, "axioms": res.get(t)} for t in thms)
         return allok
+
+    def correspond(self, name, reqs, impl):
+        """Compare implementation answers with the Lean model's answers to the
+        same requests.  Returns the list of disagreeing indices."""
+        model = driver(self.pid, reqs)
+        bad = [i for i in range(len(reqs)) if model[i] != impl[i]]
+        self.obligation(f"correspondence: {name} ({len(reqs)} requests)", "correspondence",
+                        not bad, "\n".join(
+                            f"{reqs[i][:300]} :: model={model[i][:200]} impl={impl[i][:200]}"
+                            for i in bad[:5]))
+        self.extra["requests_compared"] = self.extra.get("requests_compared", 0) + len(reqs)
+        return bad, model
 
     # -- failures on the real code ------------------------------------------------
     def fail(self, signature, what, replay):
